@@ -10,9 +10,11 @@ import (
 	"math/rand"
 	"os"
 	"path/filepath"
+	"runtime"
 	"sort"
 	"strings"
 	"sync"
+	"sync/atomic"
 	"time"
 
 	"github.com/pinealctx/neptune/remap"
@@ -464,7 +466,7 @@ func readPlan(path string) []act {
 // stress: free-running goroutines, consistently ordered duplicate-free lists; monitor events are
 // logged inside the critical sections.  A run that does not finish is a deadlock fact if every
 // worker is parked in a runtime wait state.
-func runStress(w *tr.W, rng *rand.Rand, variant string, shards, nthreads, nkeys, opsPer int) {
+func runStress(w *tr.W, rng *rand.Rand, variant string, shards, nthreads, nkeys, opsPer int, cold bool) {
 	l := newLocker(variant, shards)
 	var mu sync.Mutex
 	evs := make([]tr.E, 0, 1024)
@@ -479,12 +481,19 @@ func runStress(w *tr.W, rng *rand.Rand, variant string, shards, nthreads, nkeys,
 	}
 	var wg sync.WaitGroup
 	var finished int32
+	var ready, goFlag int32
 	var fm sync.Mutex
 	for t := 0; t < nthreads; t++ {
 		wg.Add(1)
 		go func(t int) {
 			defer wg.Done()
 			r := rand.New(rand.NewSource(seeds[t]))
+			if cold {
+				// cold start: everybody touches the fresh locker at the same instant
+				atomic.AddInt32(&ready, 1)
+				for atomic.LoadInt32(&goFlag) == 0 {
+				}
+			}
 			for i := 0; i < opsPer; i++ {
 				ks := orderedSublist(r, nkeys)
 				if !l.multi() || r.Intn(2) == 0 {
@@ -508,6 +517,12 @@ func runStress(w *tr.W, rng *rand.Rand, variant string, shards, nthreads, nkeys,
 			fm.Unlock()
 		}(t)
 	}
+	if cold {
+		for atomic.LoadInt32(&ready) < int32(nthreads) {
+			runtime.Gosched()
+		}
+		atomic.StoreInt32(&goFlag, 1)
+	}
 	done := make(chan struct{})
 	go func() { wg.Wait(); close(done) }()
 	stuck := 0
@@ -520,7 +535,11 @@ func runStress(w *tr.W, rng *rand.Rand, variant string, shards, nthreads, nkeys,
 	}
 	mu.Lock()
 	defer mu.Unlock()
-	w.Emit(tr.E{"ev": "reset", "variant": variant, "shards": shards, "src": "stress"})
+	src := "stress"
+	if cold {
+		src = "cold"
+	}
+	w.Emit(tr.E{"ev": "reset", "variant": variant, "shards": shards, "src": src})
 	for _, e := range evs {
 		w.Emit(e)
 	}
@@ -541,6 +560,7 @@ func main() {
 	nrand := flag.Int("rand", 100, "random schedules")
 	nstress := flag.Int("nstress", 10, "stress runs")
 	nprobe := flag.Int("nprobe", 5, "long-list lock-order probe families")
+	ncold := flag.Int("ncold", 300, "cold-start rounds (first use of a fresh locker under contention)")
 	nnest := flag.Int("nnest", 200, "nested-hold probes (a goroutine holding the keys of two calls)")
 	probePairs := flag.Int("probepairs", 60, "pairs probed per long list")
 	only := flag.String("only", "", "restrict to variants containing one of these comma-separated fragments (e.g. \"g-,gx-\" = sharded groups only)")
@@ -605,7 +625,11 @@ func main() {
 	w.Close()
 	sw := tr.Create(*stress)
 	for i := 0; i < *nstress; i++ {
-		runStress(sw, rng, variants[i%len(variants)], shardsL[rng.Intn(4)], 5, 4, 80)
+		runStress(sw, rng, variants[i%len(variants)], shardsL[rng.Intn(4)], 5, 4, 80, false)
+	}
+	// cold-start rounds: what a locker sets up on first use (a shard, an entry) is set up under contention
+	for i := 0; i < *ncold; i++ {
+		runStress(sw, rng, variants[rng.Intn(len(variants))], shardsL[rng.Intn(4)], 2+rng.Intn(3), 1+rng.Intn(2), 1+rng.Intn(2), true)
 	}
 	sw.Close()
 	fmt.Printf("step_events=%d stress_events=%d\n", w.N(), sw.N())
